@@ -962,7 +962,7 @@ int main(int argc, char **argv)
     long total = 0;
     void (*fn)(Sink &, const Args &, long) = nullptr;
     const long NP = registry().size();
-    if (a.prop == "C01") total = NP * (a.thorough() ? 60 : 6), fn = c01;
+    if (a.prop == "C01") total = NP * (a.thorough() ? 90 : 14), fn = c01;
     else if (a.prop == "C03") total = NP * ((a.thorough() ? 33 * 3 : 9 * 2) + (a.thorough() ? 60 : 12)), fn = c03;
     else if (a.prop == "C04")
     {
